@@ -388,3 +388,43 @@ def shrink(c):
 
 # functions of /repo whose executed-line coverage by this run is reported in the evidence
 ANCHORS = [('swh/model/model.py', 'Directory.from_possibly_duplicated_entries')]
+
+
+def coq_cases(cases):
+    """repair Sha1.sha1 (flag, resulting entries, id, raw manifest) and check evaluated by vm_compute inside Coq vs the
+    extracted driver (extraction cross-check)"""
+    from . import core
+    def size(c):
+        return sum(len(n) // 2 + len(tg) // 2 + 8 for n, _, tg, _ in c["entries"]) + (len(c["raw"]) // 2 if c["raw"] else 0)
+    cases[:] = [c for c in cases if len(c["entries"]) <= 8 and size(c) <= 400]      # in place: the evidence's `n` is the number evaluated
+    ty = {"file": "EFile", "dir": "EDir", "rev": "ERev"}
+    tn = {"file": 0, "dir": 1, "rev": 2}
+    def nl(h):
+        return "[" + "; ".join("%d" % b for b in bytes.fromhex(h)) + "]%N"
+    def ent(es):
+        return "[" + "; ".join("{| e_name := %s; e_type := %s; e_target := %s; e_perms := %d%%N |}" % (nl(n), ty[t], nl(tg), p)
+                               for n, t, tg, p in es) + "]"
+    src = ("From Coq Require Import List NArith.\nFrom SWH.lib Require Import Bytes Sha1.\nFrom SWH.model Require Import Dir Dedup.\n"
+           "Import ListNotations.\n" + core.COQ_CHECKSUM +
+           "\nDefinition flat (es : list entry) : list N := concat (map (fun e => e_name e ++ [256%N; match e_type e with EFile => 0 "
+           "| EDir => 1 | ERev => 2 end] ++ e_target e ++ [257%N; e_perms e]) es).\n"
+           "Definition cases : list (list entry * list N * option (list N)) := [" +
+           ";\n ".join("(%s, %s, %s)" % (ent(c["entries"]), nl(c["id"]), "None" if c["raw"] is None else "Some " + nl(c["raw"]))
+                       for c in cases) + "].\n"
+           "Eval vm_compute in map (fun c => match c with (es, i, r) => match repair sha1 es i r with "
+           "| RepOk f d => cksum ([if f then 1%N else 0%N] ++ flat (o_entries d) ++ [258%N] ++ o_id d ++ "
+           "match o_raw d with Some m => 259%N :: m | None => [260%N] end ++ [if check sha1 d then 1%N else 0%N]) "
+           "| RepValueError => 1%N | RepOutOfFuel => 2%N end end) cases.\n")
+    resp = core.run_driver(ID, [requests(c)[0] for c in cases])
+    exp = []
+    for r in resp:
+        if not r.startswith("ok "):
+            exp.append({"err ValueError": 1, "err OutOfFuel": 2}.get(r, 3))
+            continue
+        _, f, es, i, raw, ck = r.split(" ")
+        l = [int(f)]
+        for n, t, tg, p in parse_entries(es):
+            l += list(bytes.fromhex(n)) + [256, tn[t]] + list(bytes.fromhex(tg)) + [257, p]
+        l += [258] + list(unhx(i)) + ([260] if raw == "-" else [259] + list(unhx(raw))) + [int(ck)]
+        exp.append(core.py_cksum(l))
+    return src, exp
